@@ -429,4 +429,359 @@ theorem batch_spec (law : Lawful o valid) {kv : KV} (hs : KV.Sorted kv.entries) 
   rw [hp k, h i k]
   exact foldl_applyPrimR_congr (fun _ _ => by rw [eff_nil]) ps i k
 
+/-! ## the index invariant and changes -/
+
+/-- **index invariant** of one inverted index relative to the values `vals i` the live point `i`
+holds in the indexed property (`[]` for a dead point or a point without the property) -/
+structure IdxInv (o : Ops V) (kv : KV) (vals : Id → List V) : Prop where
+  sorted : KV.Sorted kv.entries
+  noEmpty : NoEmpty kv
+  mem : ∀ i k, i ∈ post kv k ↔ ∃ v ∈ vals i, o.key v = k
+
+def upd (vals : Id → List V) (id : Id) (l : List V) : Id → List V := fun i => if i = id then l else vals i
+
+/-- the primitives `processChange` performs for one change -/
+def primsOf (o : Ops V) (ch : Change V) : List (Prim V) :=
+  match ch.prev, ch.cur with
+  | none, none => []
+  | none, some cur => [.add ch.id cur]
+  | some prev, none => [.rem ch.id prev]
+  | some prev, some cur => if !(o.veq prev cur) then [.rem ch.id prev, .add ch.id cur] else []
+
+theorem processChange_eq (kv : KV) (c : Cache V) (ch : Change V) :
+    processChange o kv c ch = (primsOf o ch).foldl (execPrim o kv) c := by
+  unfold processChange primsOf
+  cases ch.prev <;> cases ch.cur <;> simp only [List.foldl_nil, List.foldl_cons]
+  split <;> rfl
+
+theorem batchCache_eq (kv : KV) (chs : List (Change V)) :
+    batchCache o kv chs = (chs.flatMap (primsOf o)).foldl (execPrim o kv) [] := by
+  unfold batchCache
+  generalize ([] : Cache V) = c
+  induction chs generalizing c with
+  | nil => rfl
+  | cons ch chs ih =>
+    simp only [List.foldl_cons, List.flatMap_cons, List.foldl_append]
+    rw [processChange_eq]; exact ih _
+
+def Change.Valid (valid : V → Prop) (ch : Change V) : Prop :=
+  (∀ v, ch.prev = some v → valid v) ∧ (∀ v, ch.cur = some v → valid v)
+
+theorem primsOf_valid {ch : Change V} (h : ch.Valid valid) : ∀ p ∈ primsOf o ch, valid p.val := by
+  intro p hp
+  unfold primsOf at hp
+  rcases hpv : ch.prev with _ | pv <;> rcases hcv : ch.cur with _ | cv <;> simp only [hpv, hcv] at hp
+  · simp at hp
+  · simp only [List.mem_singleton] at hp; subst hp; exact h.2 cv hcv
+  · simp only [List.mem_singleton] at hp; subst hp; exact h.1 pv hpv
+  · split at hp
+    · simp only [List.mem_cons, List.mem_singleton, List.not_mem_nil, or_false] at hp
+      rcases hp with rfl | rfl
+      · exact h.1 pv hpv
+      · exact h.2 cv hcv
+    · simp at hp
+
+/-- a sequence of changes that is consistent with the values the points hold: each change names the
+value the point held before it -/
+inductive Chain : (Id → List V) → List (Change V) → (Id → List V) → Prop
+  | nil (vals) : Chain vals [] vals
+  | cons {vals ch rest vals'} : vals ch.id = ch.prev.toList → Chain (upd vals ch.id ch.cur.toList) rest vals' →
+      Chain vals (ch :: rest) vals'
+
+/-- one consistent change keeps "filed under `k` ↔ holds a value with key `k`" -/
+theorem rel_change (law : Lawful o valid) {R : Id → Bytes → Prop} {vals : Id → List V} {ch : Change V}
+    (hR : ∀ i k, R i k ↔ ∃ v ∈ vals i, o.key v = k) (hprev : vals ch.id = ch.prev.toList) (hv : ch.Valid valid)
+    (i : Id) (k : Bytes) :
+    (primsOf o ch).foldl (applyPrimR o) R i k ↔ ∃ v ∈ upd vals ch.id ch.cur.toList i, o.key v = k := by
+  unfold primsOf upd
+  by_cases hi : i = ch.id
+  · subst hi
+    simp only [if_true]
+    rcases hpv : ch.prev with _ | pv <;> rcases hcv : ch.cur with _ | cv <;>
+      simp only [hpv, hcv, Option.toList, List.foldl_nil, List.foldl_cons] at hprev ⊢
+    · rw [hR, hprev]
+    · simp [applyPrimR, hR, hprev, eq_comm]
+    · simp [applyPrimR, hR, hprev, eq_comm]
+    · have hvp := hv.1 pv hpv
+      have hvc := hv.2 cv hcv
+      by_cases hq : o.veq pv cv = true
+      · have hk := (law.veq_iff _ _ hvp hvc).1 hq
+        simp [hq, hR, hprev, hk]
+      · have hk : o.key pv ≠ o.key cv := fun h => hq ((law.veq_iff _ _ hvp hvc).2 h)
+        simp only [hq, Bool.not_false, if_true, List.foldl_cons, List.foldl_nil, applyPrimR, hR, hprev,
+          List.mem_singleton, exists_eq_left, true_and]
+        constructor
+        · rintro (⟨_, h⟩ | h)
+          · exact absurd (by rename_i h1; exact h1.symm) h
+          · exact h.symm
+        · intro h; exact Or.inr h.symm
+  · simp only [if_neg hi]
+    rcases hpv : ch.prev with _ | pv <;> rcases hcv : ch.cur with _ | cv <;>
+      simp only [List.foldl_nil, List.foldl_cons]
+    · exact hR i k
+    · simp [applyPrimR, hR, hi]
+    · simp [applyPrimR, hR, hi]
+    · split <;> simp [applyPrimR, hR, hi]
+
+theorem rel_chain (law : Lawful o valid) {vals vals' : Id → List V} {chs : List (Change V)}
+    (hc : Chain vals chs vals') (hv : ∀ ch ∈ chs, ch.Valid valid) :
+    ∀ {R : Id → Bytes → Prop}, (∀ i k, R i k ↔ ∃ v ∈ vals i, o.key v = k) →
+    ∀ i k, (chs.flatMap (primsOf o)).foldl (applyPrimR o) R i k ↔ ∃ v ∈ vals' i, o.key v = k := by
+  induction hc with
+  | nil vals => intro R hR i k; simpa using hR i k
+  | cons hprev _ ih =>
+    intro R hR i k
+    simp only [List.flatMap_cons, List.foldl_append]
+    exact ih (fun c hc => hv c (List.mem_cons_of_mem _ hc))
+      (fun i k => rel_change law hR hprev (hv _ (List.mem_cons_self ..)) i k) i k
+
+/-- **the invariant is preserved by every batch of changes that is consistent with the point store** -/
+theorem applyBatch_inv (law : Lawful o valid) {kv : KV} {vals vals' : Id → List V} {chs : List (Change V)}
+    (inv : IdxInv o kv vals) (hc : Chain vals chs vals') (hv : ∀ ch ∈ chs, ch.Valid valid) :
+    IdxInv o (applyBatch o kv chs) vals' := by
+  unfold applyBatch
+  rw [batchCache_eq]
+  have hpv : ∀ p ∈ chs.flatMap (primsOf o), valid p.val := by
+    intro p hp
+    obtain ⟨ch, hch, hp⟩ := List.mem_flatMap.1 hp
+    exact primsOf_valid (hv ch hch) p hp
+  obtain ⟨hs, hne, hm⟩ := batch_spec law inv.sorted inv.noEmpty _ hpv
+  refine ⟨hs, hne, ?_⟩
+  intro i k
+  rw [hm i k]
+  exact rel_chain law hc hv inv.mem i k
+
+/-! ### arrays -/
+
+inductive ArrChain : (Id → List V) → List (ArrChange V) → (Id → List V) → Prop
+  | nil (vals) : ArrChain vals [] vals
+  | cons {vals ch rest vals'} : vals ch.id = ch.prev → ArrChain (upd vals ch.id ch.cur) rest vals' →
+      ArrChain vals (ch :: rest) vals'
+
+def ArrChange.Valid (valid : V → Prop) (ch : ArrChange V) : Prop :=
+  (∀ v ∈ ch.prev, valid v) ∧ (∀ v ∈ ch.cur, valid v)
+
+theorem vmem_iff (law : Lawful o valid) {v : V} {l : List V} (hv : valid v) (hl : ∀ x ∈ l, valid x) :
+    vmem o v l = true ↔ ∃ x ∈ l, o.key x = o.key v := by
+  simp only [vmem, List.any_eq_true]
+  constructor
+  · rintro ⟨x, hx, h⟩; exact ⟨x, hx, (law.veq_iff _ _ (hl x hx) hv).1 h⟩
+  · rintro ⟨x, hx, h⟩; exact ⟨x, hx, (law.veq_iff _ _ (hl x hx) hv).2 h⟩
+
+theorem foldl_adds (R : Id → Bytes → Prop) (id : Id) (l : List V) (i : Id) (k : Bytes) :
+    (l.map fun v => Prim.add id v).foldl (applyPrimR o) R i k ↔ R i k ∨ (i = id ∧ ∃ v ∈ l, k = o.key v) := by
+  induction l generalizing R with
+  | nil => simp
+  | cons a l ih =>
+    simp only [List.map_cons, List.foldl_cons, ih, applyPrimR, List.mem_cons, exists_eq_or_imp]
+    constructor
+    · rintro ((h | ⟨h1, h2⟩) | ⟨h1, h2⟩)
+      · exact Or.inl h
+      · exact Or.inr ⟨h1, Or.inl h2⟩
+      · exact Or.inr ⟨h1, Or.inr h2⟩
+    · rintro (h | ⟨h1, h2 | h2⟩)
+      · exact Or.inl (Or.inl h)
+      · exact Or.inl (Or.inr ⟨h1, h2⟩)
+      · exact Or.inr ⟨h1, h2⟩
+
+theorem foldl_rems (R : Id → Bytes → Prop) (id : Id) (l : List V) (i : Id) (k : Bytes) :
+    (l.map fun v => Prim.rem id v).foldl (applyPrimR o) R i k ↔ R i k ∧ ¬(i = id ∧ ∃ v ∈ l, k = o.key v) := by
+  induction l generalizing R with
+  | nil => simp
+  | cons a l ih =>
+    simp only [List.map_cons, List.foldl_cons, ih, applyPrimR, List.mem_cons, exists_eq_or_imp]
+    constructor
+    · rintro ⟨⟨h, h1⟩, h2⟩
+      refine ⟨h, ?_⟩
+      rintro ⟨hi, hk | hk⟩
+      · exact h1 ⟨hi, hk⟩
+      · exact h2 ⟨hi, hk⟩
+    · rintro ⟨h, hn⟩
+      exact ⟨⟨h, fun ⟨hi, hk⟩ => hn ⟨hi, Or.inl hk⟩⟩, fun ⟨hi, hk⟩ => hn ⟨hi, Or.inr hk⟩⟩
+
+theorem arrDiff_prims (ch : ArrChange V) :
+    (arrDiff o ch).flatMap (primsOf o) =
+      ((ch.cur.filter fun v => !(vmem o v ch.prev)).map fun v => Prim.add ch.id v) ++
+      ((ch.prev.filter fun v => !(vmem o v ch.cur)).map fun v => Prim.rem ch.id v) := by
+  unfold arrDiff
+  rw [List.flatMap_append]
+  congr 1
+  · generalize (ch.cur.filter fun v => !(vmem o v ch.prev)) = l
+    induction l with
+    | nil => rfl
+    | cons a l ih => simp only [List.map_cons, List.flatMap_cons, ih]; rfl
+  · generalize (ch.prev.filter fun v => !(vmem o v ch.cur)) = l
+    induction l with
+    | nil => rfl
+    | cons a l ih => simp only [List.map_cons, List.flatMap_cons, ih]; rfl
+
+theorem rel_arrChange (law : Lawful o valid) {R : Id → Bytes → Prop} {vals : Id → List V} {ch : ArrChange V}
+    (hR : ∀ i k, R i k ↔ ∃ v ∈ vals i, o.key v = k) (hprev : vals ch.id = ch.prev) (hv : ch.Valid valid)
+    (i : Id) (k : Bytes) :
+    ((arrDiff o ch).flatMap (primsOf o)).foldl (applyPrimR o) R i k ↔ ∃ v ∈ upd vals ch.id ch.cur i, o.key v = k := by
+  rw [arrDiff_prims, List.foldl_append, foldl_rems, foldl_adds, hR]
+  unfold upd
+  by_cases hi : i = ch.id
+  · subst hi
+    simp only [if_true, true_and, hprev, List.mem_filter, Bool.not_eq_true', ← Bool.not_eq_true]
+    constructor
+    · rintro ⟨h | ⟨c, ⟨hc, _⟩, rfl⟩, hn⟩
+      · obtain ⟨p, hp, rfl⟩ := h
+        by_cases hm : vmem o p ch.cur = true
+        · obtain ⟨c, hc, hk⟩ := (vmem_iff law (hv.1 p hp) hv.2).1 hm
+          exact ⟨c, hc, hk⟩
+        · exact absurd ⟨p, ⟨hp, hm⟩, rfl⟩ hn
+      · exact ⟨c, hc, rfl⟩
+    · rintro ⟨c, hc, rfl⟩
+      refine ⟨?_, ?_⟩
+      · by_cases hm : vmem o c ch.prev = true
+        · obtain ⟨p, hp, hk⟩ := (vmem_iff law (hv.2 c hc) hv.1).1 hm
+          exact Or.inl ⟨p, hp, hk⟩
+        · exact Or.inr ⟨c, ⟨hc, hm⟩, rfl⟩
+      · rintro ⟨p, ⟨hp, hm⟩, hk⟩
+        exact hm ((vmem_iff law (hv.1 p hp) hv.2).2 ⟨c, hc, hk⟩)
+  · simp [hi]
+
+theorem rel_arrChain (law : Lawful o valid) {vals vals' : Id → List V} {chs : List (ArrChange V)}
+    (hc : ArrChain vals chs vals') (hv : ∀ ch ∈ chs, ch.Valid valid) :
+    ∀ {R : Id → Bytes → Prop}, (∀ i k, R i k ↔ ∃ v ∈ vals i, o.key v = k) →
+    ∀ i k, ((chs.flatMap (arrDiff o)).flatMap (primsOf o)).foldl (applyPrimR o) R i k ↔ ∃ v ∈ vals' i, o.key v = k := by
+  induction hc with
+  | nil vals => intro R hR i k; simpa using hR i k
+  | cons hprev _ ih =>
+    intro R hR i k
+    simp only [List.flatMap_cons, List.flatMap_append, List.foldl_append]
+    exact ih (fun c hc => hv c (List.mem_cons_of_mem _ hc))
+      (fun i k => rel_arrChange law hR hprev (hv _ (List.mem_cons_self ..)) i k) i k
+
+theorem arrDiff_valid {ch : ArrChange V} (h : ch.Valid valid) : ∀ p ∈ (arrDiff o ch).flatMap (primsOf o), valid p.val := by
+  intro p hp
+  rw [arrDiff_prims] at hp
+  rcases List.mem_append.1 hp with hp | hp
+  · obtain ⟨v, hv, rfl⟩ := List.mem_map.1 hp
+    exact h.2 v (List.mem_filter.1 hv).1
+  · obtain ⟨v, hv, rfl⟩ := List.mem_map.1 hp
+    exact h.1 v (List.mem_filter.1 hv).1
+
+theorem applyArrBatch_inv (law : Lawful o valid) {kv : KV} {vals vals' : Id → List V} {chs : List (ArrChange V)}
+    (inv : IdxInv o kv vals) (hc : ArrChain vals chs vals') (hv : ∀ ch ∈ chs, ch.Valid valid) :
+    IdxInv o (applyArrBatch o kv chs) vals' := by
+  unfold applyArrBatch applyBatch
+  rw [batchCache_eq]
+  have hpv : ∀ p ∈ (chs.flatMap (arrDiff o)).flatMap (primsOf o), valid p.val := by
+    intro p hp
+    obtain ⟨c, hc, hp⟩ := List.mem_flatMap.1 hp
+    obtain ⟨ch, hch, hc⟩ := List.mem_flatMap.1 hc
+    exact arrDiff_valid (hv ch hch) p (List.mem_flatMap.2 ⟨c, hc, hp⟩)
+  obtain ⟨hs, hne, hm⟩ := batch_spec law inv.sorted inv.noEmpty _ hpv
+  refine ⟨hs, hne, ?_⟩
+  intro i k
+  rw [hm i k]
+  exact rel_arrChain law hc hv inv.mem i k
+
+/-! ## search -/
+
+/-- **every operator returns exactly the ids holding a value that satisfies it** -/
+theorem search_spec (law : Lawful o valid) {kv : KV} {vals : Id → List V} (inv : IdxInv o kv vals)
+    (hvals : ∀ i, ∀ v ∈ vals i, valid v) {q e : V} (hq : valid q) (he : valid e) (op : Op) (i : Id) :
+    i ∈ search o kv q e op ↔ ∃ a ∈ vals i, satOp o op a q e = true := by
+  have key : ∀ P : Bytes → Bool, (∃ k, P k = true ∧ i ∈ post kv k) ↔ ∃ a ∈ vals i, P (o.key a) = true := by
+    intro P
+    constructor
+    · rintro ⟨k, hp, hi⟩
+      obtain ⟨v, hv, rfl⟩ := (inv.mem i k).1 hi
+      exact ⟨v, hv, hp⟩
+    · rintro ⟨a, ha, hp⟩
+      exact ⟨o.key a, hp, (inv.mem i _).2 ⟨a, ha, rfl⟩⟩
+  have cong : ∀ P Q : V → Bool, (∀ a ∈ vals i, P a = Q a) → ((∃ a ∈ vals i, P a = true) ↔ ∃ a ∈ vals i, Q a = true) := by
+    intro P Q h
+    constructor <;> rintro ⟨a, ha, hp⟩
+    · exact ⟨a, ha, by rw [← h a ha]; exact hp⟩
+    · exact ⟨a, ha, by rw [h a ha]; exact hp⟩
+  cases op with
+  | equals =>
+    simp only [search, satOp]
+    rw [inv.mem]
+    constructor <;> rintro ⟨a, ha, h⟩
+    · exact ⟨a, ha, (law.veq_iff _ _ (hvals i a ha) hq).2 h⟩
+    · exact ⟨a, ha, (law.veq_iff _ _ (hvals i a ha) hq).1 h⟩
+  | notEquals =>
+    simp only [search, satOp, KV.forEach]
+    rw [mem_unionEntries_filter inv.sorted (fun k => !(k == o.key q)), key]
+    apply cong
+    intro a ha
+    rw [Bool.eq_iff_iff]
+    simp only [Bool.not_eq_true', beq_eq_false_iff_ne, ne_eq]
+    rw [← Bool.not_eq_true, law.veq_iff _ _ (hvals i a ha) hq]
+  | startsWith =>
+    simp only [search, satOp]
+    rw [KV.prefixScan_spec inv.sorted, mem_unionEntries_filter inv.sorted (fun k => KV.isPrefix (o.key q) k), key]
+    apply cong
+    intro a ha
+    rw [law.pre_iff _ _ hq (hvals i a ha)]; rfl
+  | gt =>
+    simp only [search, satOp]
+    rw [KV.rangeScan_spec inv.sorted,
+      mem_unionEntries_filter inv.sorted (fun k => KV.inLo (some (o.key q)) false k && KV.inHi none false k), key]
+    apply cong
+    intro a ha
+    simp [KV.inLo, KV.inHi, law.lt_iff _ _ hq (hvals i a ha)]
+  | ge =>
+    simp only [search, satOp]
+    rw [KV.rangeScan_spec inv.sorted,
+      mem_unionEntries_filter inv.sorted (fun k => KV.inLo (some (o.key q)) true k && KV.inHi none true k), key]
+    apply cong
+    intro a ha
+    simp [KV.inLo, KV.inHi, law.lt_iff _ _ (hvals i a ha) hq, law.le_iff _ _ hq (hvals i a ha)]
+  | lt =>
+    simp only [search, satOp]
+    rw [KV.rangeScan_spec inv.sorted,
+      mem_unionEntries_filter inv.sorted (fun k => KV.inLo none false k && KV.inHi (some (o.key q)) false k), key]
+    apply cong
+    intro a ha
+    simp [KV.inLo, KV.inHi, law.lt_iff _ _ (hvals i a ha) hq]
+  | le =>
+    simp only [search, satOp]
+    rw [KV.rangeScan_spec inv.sorted,
+      mem_unionEntries_filter inv.sorted (fun k => KV.inLo none true k && KV.inHi (some (o.key q)) true k), key]
+    apply cong
+    intro a ha
+    simp [KV.inLo, KV.inHi, law.lt_iff _ _ hq (hvals i a ha), law.le_iff _ _ (hvals i a ha) hq]
+  | inRange =>
+    simp only [search, satOp]
+    rw [KV.rangeScan_spec inv.sorted,
+      mem_unionEntries_filter inv.sorted (fun k => KV.inLo (some (o.key q)) true k && KV.inHi (some (o.key e)) true k), key]
+    apply cong
+    intro a ha
+    simp [KV.inLo, KV.inHi, law.lt_iff _ _ (hvals i a ha) hq, law.lt_iff _ _ he (hvals i a ha),
+      law.le_iff _ _ hq (hvals i a ha), law.le_iff _ _ (hvals i a ha) he]
+
+/-- containsAll / containsAny over an array index -/
+theorem searchArr_spec (law : Lawful o valid) {kv : KV} {vals : Id → List V} (inv : IdxInv o kv vals)
+    (hvals : ∀ i, ∀ v ∈ vals i, valid v) (qs : List V) (hqs : ∀ q ∈ qs, valid q) (hne : qs ≠ []) (all : Bool) (i : Id) :
+    i ∈ searchArr o kv qs all ↔
+      if all then ∀ q ∈ qs, ∃ a ∈ vals i, o.veq a q = true else ∃ q ∈ qs, ∃ a ∈ vals i, o.veq a q = true := by
+  have h1 : ∀ q ∈ qs, (i ∈ search o kv q q .equals ↔ ∃ a ∈ vals i, o.veq a q = true) := by
+    intro q hq
+    have := search_spec law inv hvals (hqs q hq) (hqs q hq) .equals i
+    simpa [satOp] using this
+  unfold searchArr
+  cases all with
+  | true =>
+    simp only [if_true]
+    rw [mem_interAll _ (by simpa using hne)]
+    simp only [List.mem_map, forall_exists_index, and_imp, forall_apply_eq_imp_iff₂]
+    constructor
+    · intro h q hq; exact (h1 q hq).1 (h q hq)
+    · intro h q hq; exact (h1 q hq).2 (h q hq)
+  | false =>
+    simp only [Bool.false_eq_true, if_false]
+    rw [mem_unionAll]
+    constructor
+    · rintro ⟨s, hs, h⟩
+      obtain ⟨q, hq, rfl⟩ := List.mem_map.1 hs
+      exact ⟨q, hq, (h1 q hq).1 h⟩
+    · rintro ⟨q, hq, h⟩
+      exact ⟨_, List.mem_map.2 ⟨q, hq, rfl⟩, (h1 q hq).2 h⟩
+
 end Sema.C02
